@@ -1,4 +1,13 @@
-From Coq Require Import Extraction ExtrOcamlBasic NArith.
+From Coq Require Import Extraction ExtrOcamlBasic NArith ZArith.
 From SF Require Import Base.Outcome Base.Bytes Base.GeomAST Model.WKB.
+From SF Require Model.WKT Model.GeoJSON Model.TWKB Model.TWKBQuant.
 Extraction Language OCaml.
-Extraction "model.ml" dec_full dec dec_alloc scan geom_type N.of_nat N.to_nat.
+(* one flat file: identifiers that several models define (dec_full, tok, ...) are renamed by the
+   extraction with a numeric suffix; the driver refers to the entry points below only *)
+Definition c08_wkb_dec_full := WKB.dec_full.
+Definition c08_wkb_scan := WKB.scan.
+Definition c08_twkb_unmarshal := TWKBQuant.unmarshal_f.
+Definition c08_wkt_unmarshal := WKT.unmarshal_wkt.
+Definition c08_gj_unmarshal := GeoJSON.gj_unmarshal.
+Extraction "model.ml" c08_wkb_dec_full c08_wkb_scan c08_twkb_unmarshal c08_wkt_unmarshal c08_gj_unmarshal
+  geom_type N.of_nat N.to_nat.
